@@ -29,6 +29,8 @@ pub struct Cfg {
     pub tracked_arms: Vec<(String, String, String)>,     // scrutinee text, arm pattern prefix, condition
     pub tracked_after: Vec<(String, String)>,            // condition text -> event emitted after the `if` (its then-branch diverges)
     pub exit_markers: Vec<(String, String)>,             // "Type::fn" -> event emitted at successful exits
+    pub typed_roles: Vec<(String, String, String)>,      // self type, substring, role (checked before the untyped rules)
+    pub strict_exits: Vec<(String, String)>,             // "Type::fn" -> event emitted before a `return Err(..)` literal that is not under a tracked condition
     pub fmtlocks: Vec<(String, String)>,                 // type whose Debug/Display impl takes a lock -> lock (formatting `self` of that type in a macro = acquire + release)
     pub carriers: Vec<(String, String, String, String, String)>, // source file, struct, field name ("*" = any, "0" = tuple field), required type text ("=T" exact), label
 }
@@ -61,6 +63,8 @@ pub fn load_cfg(path: &str) -> Result<Cfg, String> {
             "trackedarm" if p.len() >= 4 => c.tracked_arms.push((p[1].replace("␣", " "), p[2].into(), p[3..].join(" "))),
             "trackedafter" if p.len() == 3 => c.tracked_after.push((p[1].replace("␣", " "), p[2].into())),
             "exitmarker" if p.len() == 3 => c.exit_markers.push((p[1].into(), p[2].into())),
+            "typedrole" if p.len() == 4 => c.typed_roles.push((p[1].into(), p[2].into(), p[3].into())),
+            "strictexit" if p.len() == 3 => c.strict_exits.push((p[1].into(), p[2].into())),
             "fmtlock" if p.len() == 3 => c.fmtlocks.push((p[1].into(), p[2].into())),
             "carrier" if p.len() == 6 => c.carriers.push((p[1].into(), p[2].into(), p[3].into(), p[4].into(), p[5].into())),
             _ => return Err(err()),
@@ -116,10 +120,23 @@ pub struct Sk<'a> {
     inline_failed: bool,
     ret_count: usize,
     pub inlined: Vec<String>,
+    /// for each enclosing conditional: is its condition explained (tracked World condition / result of an event)?
+    cond_explained: Vec<bool>,
+    arm_explained: bool,
+    last_role: Option<String>,
+    var_roles: BTreeMap<String, String>,
+    soft_errors: Vec<(String, String)>,
+    /// key ("Type::fn") of the function being skeletonised (not changed by inlining)
+    top_key: String,
 }
 
 #[derive(Clone)]
 struct InlFrame { done: String, ret: String, scope_base: usize, temps_base: usize, loop_base: usize, ret_result: bool }
+
+/// functions of the crate that do not exist on the pinned tree (name not in the committed baseline), with the file that
+/// defines them: a call to one of them from a skeletonised function is expanded across files
+pub struct NewFn { pub name: String, pub owner: String, pub retres: bool, pub src: &'static Src, pub local_fns: &'static BTreeMap<String, Vec<(String, bool)>> }
+thread_local! { pub static NEW_FNS: std::cell::RefCell<Vec<&'static NewFn>> = const { std::cell::RefCell::new(Vec::new()) }; }
 
 /// `pat` with `*` = any run of identifier characters (possibly empty); everything else literal
 fn glob_ident(pat: &str, text: &str) -> bool {
@@ -160,14 +177,26 @@ impl<'a> Sk<'a> {
         self.src.line_of(self.src.range(s).0)
     }
     fn role_of(&mut self, t: &str, at: usize) -> String {
+        for (ty, sub, r) in &self.cfg.typed_roles {
+            if *ty == self.self_ty && t.contains(sub.as_str()) {
+                self.last_role = Some(format!("Role::{}", r));
+                return format!("Role::{}", r);
+            }
+        }
         for (sub, r) in &self.cfg.roles {
             let hit = match sub.strip_prefix('=') {
                 Some(exact) => t.trim_start_matches('&') == exact,
                 None => t.contains(sub.as_str()),
             };
             if hit {
+                self.last_role = Some(format!("Role::{}", r));
                 return format!("Role::{}", r);
             }
+        }
+        // a local that was bound from an open/create of a path with a known role is a handle to that file
+        let key = t.trim_start_matches('&').trim_start_matches("mut ").trim();
+        if let Some(r) = self.var_roles.get(key).cloned() {
+            return r;
         }
         self.errors.push(format!("{}:{}: cannot assign a filesystem role to `{}` (skeleton alphabet is closed)", self.src.rel, at, t));
         "Role::UNKNOWN".into()
@@ -308,6 +337,24 @@ impl<'a> Sk<'a> {
 
     /// a call to a function of the same file that is not registered: skeletonise it on the fly
     fn try_auto(&mut self, name: &str, owner_hint: Option<&str>) -> Option<AV> {
+        if !self.local_fns.contains_key(name) {
+            // a function that is new to the crate and defined in another file
+            let hits: Vec<&'static NewFn> = NEW_FNS.with(|v| v.borrow().iter().filter(|f| f.name == name && f.src.rel != self.src.rel).cloned().collect());
+            if hits.len() == 1 {
+                let h = hits[0];
+                let (saved_src, saved_lf) = (self.src, self.local_fns);
+                self.src = h.src;
+                self.local_fns = h.local_fns;
+                let r = self.try_inline(&h.owner, name, h.retres);
+                self.src = saved_src;
+                self.local_fns = saved_lf;
+                if r.is_none() {
+                    self.errors.push(format!("{}: call to the new function `{}` ({}) cannot be expanded (recursive / returns a guard): its effects are unknown", self.src.rel, name, h.src.rel));
+                }
+                return r;
+            }
+            return None;
+        }
         let cands = self.local_fns.get(name)?.clone();
         let pick = match owner_hint {
             Some(o) => cands.iter().find(|(t, _)| t == o).cloned().or_else(|| if cands.len() == 1 { Some(cands[0].clone()) } else { None }),
@@ -455,6 +502,14 @@ impl<'a> Sk<'a> {
                     Some(x) => self.expr(x),
                     None => AV::None,
                 };
+                // a literal `return Err(..)` of a strict-exit function (e.g. open) that no tracked condition explains
+                if let (Some(x), Some((_, ev))) = (&r.expr, self.cfg.strict_exits.iter().find(|(k, _)| *k == self.top_key).cloned()) {
+                    let is_err_lit = matches!(Self::strip(x), syn::Expr::Call(c) if matches!(&*c.func, syn::Expr::Path(p) if p.path.is_ident("Err")));
+                    if is_err_lit && !self.cond_explained.last().copied().unwrap_or(false) {
+                        self.emit(&format!("ev_{}(w);", ev));
+                        self.events += 1;
+                    }
+                }
                 self.do_return(&av);
                 AV::None
             }
@@ -478,12 +533,26 @@ impl<'a> Sk<'a> {
                 let ev0 = self.events;
                 self.emit("if nondet() {");
                 self.ind += 1;
+                // the body runs inside the callee (as its callback); the callee's skeleton accounts for the context
+                // a closure chained onto an open (`open(p).and_then(|file| ..)`): its parameter is a handle to that file
+                if let Some(r) = self.last_role.clone() {
+                    for inp in c.inputs.iter() {
+                        if let syn::Pat::Ident(pi) = inp {
+                            let hr = if r == "Role::TMP" { "Role::TMP_FILE".to_string() } else { r.clone() };
+                            self.var_roles.entry(pi.ident.to_string()).or_insert(hr);
+                        }
+                    }
+                }
+                let cbv = self.fresh("cbarg");
+                self.emit(&format!("let {} = rd(w, F::CbArg);", cbv));
+                self.emit("set_cbarg(w, true);");
                 self.scopes.push(vec![]);
                 self.expr(&c.body);
                 let sc = self.scopes.pop().unwrap();
                 for (_, b) in sc.iter().rev() {
                     self.release_bound(b);
                 }
+                self.emit(&format!("set_cbarg(w, {});", cbv));
                 self.ind -= 1;
                 self.emit("}");
                 if self.events == ev0 {
@@ -646,7 +715,9 @@ impl<'a> Sk<'a> {
         self.emit(&format!("let mut {}: bool = nondet();", res));
         self.emit(&format!("if {} {{", cond));
         self.ind += 1;
+        self.cond_explained.push(cond != "nondet()");
         let a = self.block(&i.then_branch);
+        self.cond_explained.pop();
         if let AV::Res(v) = &a {
             self.emit(&format!("{} = {};", res, v));
         }
@@ -654,10 +725,12 @@ impl<'a> Sk<'a> {
         if let Some((_, eb)) = &i.else_branch {
             self.emit("} else {");
             self.ind += 1;
+            self.cond_explained.push(cond != "nondet()");
             let b = match &**eb {
                 syn::Expr::Block(b) => self.block(&b.block),
                 other => self.expr(other),
             };
+            self.cond_explained.pop();
             if let AV::Res(v) = &b {
                 self.emit(&format!("{} = {};", res, v));
             }
@@ -690,7 +763,9 @@ impl<'a> Sk<'a> {
             if let Some((_, g)) = &arm.guard {
                 self.expr(g);
             }
+            self.cond_explained.push(self.arm_explained);
             let av = self.expr(&arm.body);
+            self.cond_explained.pop();
             if let AV::Res(v) = &av {
                 self.emit(&format!("{} = {};", res, v));
             }
@@ -722,7 +797,9 @@ impl<'a> Sk<'a> {
                 first = false;
                 self.ind += 1;
                 self.scopes.push(vec![]);
+                self.cond_explained.push(cond != "nondet()");
                 let av = self.expr(&arm.body);
+                self.cond_explained.pop();
                 if let AV::Res(v) = &av {
                     self.emit(&format!("{} = {};", res, v));
                 }
@@ -744,11 +821,14 @@ impl<'a> Sk<'a> {
             let errs: Vec<&syn::Arm> = m.arms.iter().zip(pats.iter()).filter(|(_, p)| p.starts_with("Err")).map(|(a, _)| a).collect();
             self.emit(&format!("if {} {{", v));
             self.ind += 1;
+            self.arm_explained = oks.len() <= 1;
             self.arm_chain(&oks, &res);
             self.ind -= 1;
             self.emit("} else {");
             self.ind += 1;
+            self.arm_explained = errs.len() <= 1;
             self.arm_chain(&errs, &res);
+            self.arm_explained = false;
             self.ind -= 1;
             self.emit("}");
         } else {
@@ -786,13 +866,13 @@ impl<'a> Sk<'a> {
             let (strict, reqt) = match req.strip_prefix('!') { Some(r) if req.starts_with("!!") => (true, r.to_string()), _ => (false, req.clone()) };
             let has = reqt.is_empty() || call_text.replace(' ', "").contains(&reqt.replace(' ', ""));
             // the predicate text is the semantic content of the marker: it fires on any receiver name
-            if recv_text.contains(sub.as_str()) || (!reqt.is_empty() && has) {
+            if sub == "*" || recv_text.contains(sub.as_str()) || (!reqt.is_empty() && has) {
                 if !has {
                     if strict {
-                        self.errors.push(format!("{}:{}: `{}` has the marker shape `{}` but not the expected predicate `{}`", self.src.rel, at, call_text, ev, reqt));
-                    } else {
-                        continue;
+                        // only a problem if the function contains no statement with the expected predicate at all
+                        self.soft_errors.push((ev.clone(), format!("{}:{}: `{}` has the marker shape `{}` but not the expected predicate `{}`", self.src.rel, at, call_text, ev, reqt)));
                     }
+                    continue;
                 }
                 self.emit(&format!("ev_{}(w);", ev));
                 self.events += 1;
@@ -883,6 +963,13 @@ impl<'a> Sk<'a> {
             }
         }
         if !self.cfg.pure.iter().any(|p| *p == name) {
+            // a method that is new to the crate (any receiver, defined in another file): expand it
+            let is_new = NEW_FNS.with(|v| v.borrow().iter().any(|f| f.name == name));
+            if is_new {
+                if let Some(av) = self.try_auto(&name, None) {
+                    return av;
+                }
+            }
             self.unknown_calls.push(format!("{}:{}: .{}()", self.src.rel, at, name));
         }
         AV::None
@@ -911,6 +998,20 @@ impl<'a> Sk<'a> {
                 }
             }
             return AV::None;
+        }
+        // a lock guard passed by value to a function (downgrade, map, forget, a helper that keeps it): its lifetime leaves
+        // the scope rules of the skeleton
+        for a in &c.args {
+            if let syn::Expr::Path(p) = Self::strip(a) {
+                if let Some(id) = p.path.get_ident() {
+                    let idn = id.to_string();
+                    let is_guard = self.scopes.iter().any(|sc| sc.iter().any(|(n, b)| *n == idn && matches!(b, Bound::Lock(_))));
+                    let by_ref = matches!(a, syn::Expr::Reference(_));
+                    if is_guard && !by_ref {
+                        self.errors.push(format!("{}:{}: the lock guard `{}` is moved into `{}`: its lifetime cannot be followed by the skeleton rules", self.src.rel, at, idn, pstr));
+                    }
+                }
+            }
         }
         let mut arg_avs = vec![];
         if lastn == "spawn" {
@@ -980,7 +1081,8 @@ impl<'a> Sk<'a> {
         if !self.cfg.pure.iter().any(|p| *p == lastn || *p == pstr) {
             let segs: Vec<&str> = pstr.split("::").collect();
             let st = self.self_ty.clone();
-            let auto = if segs.len() == 1 { self.try_auto(&lastn, None) } else if segs.len() == 2 && (segs[0] == "Self" || segs[0] == st) { self.try_auto(&lastn, Some(&st)) } else { None };
+            let is_new = NEW_FNS.with(|v| v.borrow().iter().any(|f| f.name == lastn));
+            let auto = if segs.len() == 1 || is_new { self.try_auto(&lastn, None) } else if segs.len() == 2 && (segs[0] == "Self" || segs[0] == st) { self.try_auto(&lastn, Some(&st)) } else { None };
             if let Some(av) = auto {
                 return av;
             }
@@ -1008,6 +1110,8 @@ impl<'a> Sk<'a> {
         let n = b.stmts.len();
         let mut wrappers = 0usize;
         let mut rc0 = self.ret_count;
+        let mark = self.out.len();
+        let mark_ind = self.ind;
         for (k, s) in b.stmts.iter().enumerate() {
             last = self.stmt(s, k + 1 == n);
             if let Some(fr) = self.inl.last().cloned() {
@@ -1030,8 +1134,17 @@ impl<'a> Sk<'a> {
             }
             last = AV::None;
         } else if wrappers > 0 && !matches!(last, AV::None) {
-            // a value computed behind an early return of the inlined helper would escape its guard: do not inline
-            self.inline_failed = true;
+            match &last {
+                AV::Res(v) => {
+                    // the block's value is computed behind an early return of the inlined helper: carry it in a variable
+                    // declared before the block (its value is irrelevant once the helper has returned)
+                    let bv = self.fresh("vx_bv");
+                    self.out.insert(mark, format!("{}let mut {}: bool = true;", "    ".repeat(mark_ind), bv));
+                    self.emit(&format!("{} = {};", bv, v));
+                    last = AV::Res(bv);
+                }
+                _ => { self.inline_failed = true; }
+            }
         }
         let sc = self.scopes.pop().unwrap();
         for (_, b) in sc.iter().rev() {
@@ -1156,7 +1269,13 @@ impl<'a> Sk<'a> {
                         }
                     }
                     self.begin_temps();
+                    self.last_role = None;
                     let av = self.expr(&init.expr);
+                    if let (syn::Pat::Ident(pi), Some(r)) = (&l.pat, self.last_role.clone()) {
+                        // TMP path -> TMP_FILE handle; other roles name the file itself
+                        let hr = if r == "Role::TMP" { "Role::TMP_FILE".to_string() } else { r };
+                        self.var_roles.insert(pi.ident.to_string(), hr);
+                    }
                     // a guard bound by `let` lives to the end of the scope; other temporaries die here
                     let bound_guard = matches!(av, AV::Guard(_) | AV::Dropper(_, _));
                     if bound_guard {
@@ -1231,13 +1350,14 @@ impl<'a> Sk<'a> {
             src: self.src, cfg: self.cfg, registry: self.registry, self_ty: self.self_ty.clone(), out: vec![], ind: 1,
             scopes: vec![], temps: vec![], loop_scope_depth: vec![], n: 0, ret_result: true, vars: BTreeMap::new(),
             closures: BTreeMap::new(), pending_closures: vec![], errors: vec![], events: 0, loop_invs: BTreeMap::new(),
-            loop_counter: 0, fname: name.to_string(), drop_self: None, unknown_calls: vec![], exit_marker: None, local_fns: self.local_fns, auto_requests: vec![], inl: vec![], inline_stack: vec![], inline_failed: false, ret_count: 0, inlined: vec![],
+            loop_counter: 0, fname: name.to_string(), drop_self: None, unknown_calls: vec![], exit_marker: None, local_fns: self.local_fns, auto_requests: vec![], inl: vec![], inline_stack: vec![], inline_failed: false, ret_count: 0, inlined: vec![], cond_explained: vec![], arm_explained: false, last_role: None, var_roles: BTreeMap::new(), soft_errors: vec![], top_key: String::new(),
         };
         sub.scopes.push(vec![]);
         let av = sub.expr(&c.body);
         let v = match av { AV::Res(v) => v, _ => "nondet()".into() };
         sub.emit(&v);
         self.errors.extend(sub.errors.clone());
+        self.soft_errors.extend(sub.soft_errors.clone());
         self.unknown_calls.extend(sub.unknown_calls.clone());
         self.auto_requests.extend(sub.auto_requests.clone());
         self.inlined.extend(sub.inlined.clone());
@@ -1268,8 +1388,9 @@ pub fn skeleton_of(
     let mut sk = Sk {
         src, cfg, registry, self_ty: self_ty.to_string(), out: vec![], ind: 1, scopes: vec![], temps: vec![], loop_scope_depth: vec![], n: 0,
         ret_result, vars: BTreeMap::new(), closures: BTreeMap::new(), pending_closures: vec![], errors: vec![], events: 0, loop_invs,
-        loop_counter: 0, fname: fname.to_string(), drop_self: drop_self.clone(), unknown_calls: vec![], exit_marker: exit_marker.clone(), local_fns, auto_requests: vec![], inl: vec![], inline_stack: vec![], inline_failed: false, ret_count: 0, inlined: vec![],
+        loop_counter: 0, fname: fname.to_string(), drop_self: drop_self.clone(), unknown_calls: vec![], exit_marker: exit_marker.clone(), local_fns, auto_requests: vec![], inl: vec![], inline_stack: vec![], inline_failed: false, ret_count: 0, inlined: vec![], cond_explained: vec![], arm_explained: false, last_role: None, var_roles: BTreeMap::new(), soft_errors: vec![], top_key: String::new(),
     };
+    sk.top_key = if self_ty.is_empty() { sig.ident.to_string() } else { format!("{}::{}", self_ty, sig.ident) };
     // dyn Fn parameters that are callbacks are resolved by name through cfg.callbacks
     let av = sk.block(block);
     if let Some(ds) = &drop_self {
@@ -1288,6 +1409,12 @@ pub fn skeleton_of(
             sk.emit("rv_tail");
         } else {
             sk.emit(&v);
+        }
+    }
+    for (ev, msg) in sk.soft_errors.clone() {
+        let needle = format!("ev_{}(w);", ev);
+        if !sk.out.iter().any(|l| l.contains(&needle)) {
+            sk.errors.push(msg);
         }
     }
     if !sk.errors.is_empty() {
